@@ -2,7 +2,7 @@ import SwhVerif.Model.Cli
 /-!
 # C18 — The identify command prints what the library computes, for every option mix
 The configuration space is finite (7 argument kinds × 5 types × dereference × filename ×
-recursive × 3 verify states × exclude = 1 680); the theorems are closed by exhaustive case
+recursive × 4 verify states × exclude = 2 240); the theorems are closed by exhaustive case
 analysis in the kernel, which is a proof for a finite table.
 -/
 namespace Swh.C18
@@ -23,10 +23,11 @@ theorem identify_designated (c : Cfg) (h : inScope c = true) : identify c = expe
     first | rfl | (exact absurd h (by decide))
 
 /-- **Usage errors are exactly the documented ones**: recursive identification with
-    verification, or for a type other than directory. -/
+    verification, or for a type other than directory; a `--verify` value that is not a core SWHID. -/
 theorem usage_error_iff_documented (c : Cfg) (h : inScope c = true) :
     identify c = .usageError ↔
-      (recursiveApplies c = true ∧ (c.verify ≠ .absent ∨ (c.type ≠ .auto ∧ c.type ≠ .directory))) := by
+      (c.verify = .malformed ∨
+       (recursiveApplies c = true ∧ (c.verify ≠ .absent ∨ (c.type ≠ .auto ∧ c.type ≠ .directory)))) := by
   rcases c with ⟨k, t, d, f, r, v, x⟩
   cases k <;> cases t <;> cases d <;> cases f <;> cases r <;> cases v <;> cases x <;>
     first | (exact absurd h (by decide)) | decide
